@@ -311,9 +311,9 @@ theorem holds_seg_of (bs : Bytes) (r : Record) (pad : Bytes) (rc : Bool) (hr : r
       omega
 
 /-- in particular from the file the daemon leaves behind, whatever was at the path before (the same
-    hypotheses as C16.repair_roundtrip) -/
-theorem model_holds_seg (st : FileState) (r : Record) (pad : Bytes) (hd : st ≠ .directory) (hr : r.inRange)
-    (hlen : ∀ bs h, st = .file bs → readerOpen st = .ok h → 72 ≤ bs.length) :
+    hypotheses as C16.repair_roundtrip: every prior state but a directory — a usable file that ended
+    before byte 72 included, which start-up grows to 72 bytes) -/
+theorem model_holds_seg (st : FileState) (r : Record) (pad : Bytes) (hd : st ≠ .directory) (hr : r.inRange) :
     ∃ bs' rc, startAndPublish st r pad = .ok (.file bs', rc) ∧ HoldsSeg bs' r rc = true := by
   cases hro : readerOpen st with
   | ok h =>
@@ -321,14 +321,13 @@ theorem model_holds_seg (st : FileState) (r : Record) (pad : Bytes) (hd : st ≠
     | missing => cases hro
     | directory => cases hro
     | file bs =>
-      have h72 := hlen bs h rfl hro
       obtain ⟨hl, rfl, hm0, hm1, hv, hg, hs⟩ := (readerOpen_ok_iff bs h).mp hro
-      have hW := parseHeader_takeover bs r pad hl
-      refine ⟨writeRecord (patch bs 12 (encU16 1)) r pad, false, ?_, ?_⟩
-      · unfold startAndPublish; rw [writerNew_usable bs _ hro]; rfl
+      have hW := parseHeader_takeover_ext bs r pad hl
+      refine ⟨writeRecord (patch (extendToSegment bs) 12 (encU16 1)) r pad, false, ?_, ?_⟩
+      · exact startAndPublish_usable bs _ r pad hro
       · apply holds_seg_of _ r pad false hr
-        · rw [length_writeRecord, length_patch]; exact h72
-        · exact record_after_write _ r pad (by rw [length_patch]; exact h72)
+        · rw [length_takeover_ext]; omega
+        · exact record_after_takeover_ext bs r pad
         · rw [hW]
         · rw [hW]; exact ⟨genFinish_ne_zero _, genFinish_genStart_even _⟩
         · rw [hW]; exact hs
